@@ -643,6 +643,72 @@ def rule_h(ctx, rule='C11.h'):
             'close() does not cancel the reconnect listener')
 
 
+def rule_i(ctx, rule='C11.i'):
+    """Cancellation ends the long-running tasks: a CancelledError delivered at any await inside the sender or the
+    keepalive loops leaves the loop for good (it may be logged and swallowed at the outermost level, but no further
+    iteration, write or sleep follows) - otherwise close() waits for a task that keeps sending."""
+    rep = ctx.report
+    slots = ctx.slots
+    C = slots.RSocketClient
+    specs = [(slots.RSocketBase.lookup('_sender'), {'_finally_sender'},
+              {'_before_sender', '_finally_sender', 'is_server_alive', '_current_transport', '_log_identifier',
+               '_get_next_frame_to_send', '_fail_sent_future'}),
+             (C.lookup('_keepalive_send_task'), set(), {'_send_new_keepalive', '_log_identifier'}),
+             (C.lookup('_keepalive_timeout_task'), set(), {'_log_identifier'})]
+    for f, allowed, noinl in specs:
+        if f is None:
+            raise AnalysisError('%s: a task coroutine vanished' % rule)
+        ps = ctx.paths(f, C, exc=('cancel',), inline_depth=1, no_inline=noinl, max_paths=4000)
+        ok = True
+        why = ''
+        n = 0
+        for p in ps:
+            canc = [e for e in p.events if e.kind == 'raise' and e.data.get('implicit') == 'cancel']
+            if not canc:
+                continue
+            n += 1
+            after = [e for e in p.events if e.seq > canc[0].seq]
+            again = [e for e in after if (e.kind == 'loop' and e.data.get('phase') in ('back', 'enter')) or
+                     (e.kind == 'call' and e.data.get('awaited') and e.data.get('name') not in allowed) or
+                     e.kind == 'await' and not any(c.kind == 'call' and c.data.get('awaited') and
+                                                   c.data.get('name') in allowed and c.seq < e.seq and
+                                                   c.seq > canc[0].seq for c in after)]
+            if again:
+                ok, why = False, ('after a cancellation at line %s the task goes on (line %s): the CancelledError is '
+                                  'swallowed inside the loop' % (canc[0].line, again[0].line))
+        if n == 0:
+            raise AnalysisError('%s: no cancellation edge in %s' % (rule, f.short))
+        rep.add(rule, '%s / cancellation ends the task' % f.short, f, ok,
+                why or 'no iteration, write or sleep after a cancellation on %d paths' % n)
+
+
+def rule_wrap(ctx, rule='C11.f'):
+    """wrap_transport_exception turns whatever the transport raises into RSocketTransportError (what the receiver and
+    the sender treat as loss of the connection)."""
+    rep = ctx.report
+    m = ctx.repo.module('rsocket.helpers')
+    fs = m.functions.get('wrap_transport_exception')
+    if not fs:
+        raise AnalysisError('%s: wrap_transport_exception vanished' % rule)
+    f = fs[-1]
+    ok = False
+    for t in walk_local(f.node):
+        if isinstance(t, ast.Try) and any(isinstance(x, (ast.Yield, ast.Expr)) and
+                                          any(isinstance(y, ast.Yield) for y in ast.walk(x)) for x in t.body):
+            for h in t.handlers:
+                if h.type is None or ast.unparse(h.type).split('.')[-1] in ('Exception', 'BaseException'):
+                    raises = [r for r in ast.walk(h) if isinstance(r, ast.Raise) and r.exc is not None and
+                              'RSocketTransportError' in ast.unparse(r.exc)]
+                    # every way through the handler ends in that raise
+                    last = h.body[-1] if h.body else None
+                    if raises and isinstance(last, ast.Raise) and last in raises:
+                        ok = True
+    rep.add(rule, 'wrap_transport_exception / any exception becomes RSocketTransportError', f, ok,
+            'except Exception: raise RSocketTransportError' if ok else
+            'an exception raised inside the wrapped block is not converted into RSocketTransportError: the receiver / '
+            'sender do not recognise it as loss of the connection')
+
+
 def rule_plumbing(ctx):
     from . import plumbing
     plumbing.rule_fail_unsent(ctx, 'C11.g')
@@ -651,4 +717,4 @@ def rule_plumbing(ctx):
 
 
 RULES = [('C11.a', rule_a), ('C11.b', rule_b), ('C11.b', rule_b2), ('C11.c', rule_c), ('C11.d', rule_d), ('C11.e', rule_e),
-         ('C11.f', rule_f), ('C11.g', rule_g), ('C11.h', rule_h), ('C11.g+C11.e', rule_plumbing)]
+         ('C11.f', rule_f), ('C11.g', rule_g), ('C11.h', rule_h), ('C11.i', rule_i), ('C11.f', rule_wrap), ('C11.g+C11.e', rule_plumbing)]
